@@ -106,7 +106,9 @@ func (x *exec) verify(res *FuncResult) {
 	x.obligs = append(x.obligs, &Oblig{Base: "cover:requires", Kind: "cover", Func: fn.String(), Hyp: st.reach, Goal: "true", Cover: true, C: x.c,
 		pos: fn.Pos(), Pos: x.p.Fset.Position(fn.Pos())})
 	entry := st.clone()
-	if con.ModSet || con.Pure {
+	if con.Claims["assumed-frame"] {
+		x.note("assumed frame: the `modifies` clause of %s is used by callers but not verified (its body calls library code outside the subset)", shortKey(con.Key))
+	} else if con.ModSet || con.Pure {
 		x.frame = x.computeFrame(entry, env)
 	}
 	x.stack = []*ssa.Function{fn}
